@@ -72,6 +72,34 @@ def generate(seed, index, tier):
                             gen.spec.validate_state(st)
                         except gen.SpecError:
                             m['meta']['indexes'].pop()
+    if rng.random() < 0.4:
+        # non-ASCII identifiers (Latin-1 supplement, Latin Extended, CJK):
+        # stored text must survive both the JSON and the pickle encoding
+        marks = ['\u00e9', '\u00df', '\u0142', '\u4e2d', '\u00ff']
+        n_uni = 0
+        for a in apps:
+            for m in st['apps'][a]['models']:
+                if (m.get('meta') or {}).get('db_table') and \
+                        rng.random() < 0.7:
+                    m['meta']['db_table'] += '_' + rng.choice(marks)
+                    n_uni += 1
+                for f in m['fields']:
+                    if f['kind'] == 'ManyToMany':
+                        continue
+                    if f['attrs'].get('db_column') and rng.random() < 0.7:
+                        f['attrs']['db_column'] += rng.choice(marks)
+                        n_uni += 1
+        if not n_uni:
+            for a in apps:
+                for m in st['apps'][a]['models']:
+                    for f in m['fields']:
+                        if f['kind'] not in gen.spec.REL_KINDS and not n_uni:
+                            f['attrs']['db_column'] = 'nom_caf\u00e9'
+                            n_uni += 1
+        try:
+            gen.spec.validate_state(st)
+        except gen.SpecError:
+            pass
     project = {'apps': {a: {'v0': st['apps'][a]['models'], 'steps': []}
                         for a in apps},
                'order': apps, 'databases': ['default']}
